@@ -18,7 +18,7 @@ Ev == Events[l]
 InitState(c) ==
   [imm |-> [si \in ToSet(c.sisI) |-> [sh \in ToSet(c.shnums) |-> AbsentB]],
    mut |-> [si \in ToSet(c.sisM) |-> [sh \in ToSet(c.shnums) |-> AbsentM]],
-   clock |-> 0, free |-> c.free0, readonly |-> c.readonly]
+   clock |-> 0, capacity |-> c.capacity0, reserved |-> c.reserved, readonly |-> c.readonly]
 
 (* ---- projection of the Spec state to what the harness observes on disk ---- *)
 ObsImm(T, si) == [sh \in DOMAIN T.imm[si] |->
@@ -49,8 +49,8 @@ VAllocate(e) ==
      ELSE IF ~(allocated \subseteq AllocCandidates(S, e.si, shn)) THEN V("C22_allocated_not_absent", S)
      ELSE IF ~C28_NoOvercommit(S, e.size, allocated) THEN V("C28_NoOvercommit", S)
      ELSE IF S.readonly /\ allocated # {} THEN V("C28_ReadOnlyAccepts", S)
-     ELSE IF Cardinality(allocated) # AllocCount(S, e.si, shn, e.size) THEN V("C28_alloc_count", S)
-     ELSE IF e.inprog # InProgress(T) THEN V("C28_inprogress_sum", S)
+     ELSE IF Cardinality(allocated) < AllocCount(S, e.si, shn, e.size) THEN V("C28_Release_refused_what_fits", S)
+     ELSE IF ~InProgressReportOK(T, e.inprog) THEN V("C28_inprogress_report", S)
      ELSE IF ~ObsDataOK(T, e.si, e.obs) THEN V("C22_state_after_allocate", S)
      ELSE IF ~ObsOK(T, e.si, e.obs) THEN V("C25_leases_after_allocate", S)
      ELSE V("", T)
@@ -58,26 +58,48 @@ VAllocate(e) ==
 VWrite(e) ==
   LET T == Write(S, e.wid, e.off, e.data) IN
   IF e.res # WriteRes(S, e.wid, e.off, e.data) THEN V("C22_write_result", S)
-  ELSE IF e.inprog # InProgress(T) THEN V("C28_inprogress_sum", S)
+  ELSE IF ~InProgressReportOK(T, e.inprog) THEN V("C28_inprogress_report", S)
+  ELSE IF ~ObsDataOK(T, e.si, e.obs) THEN V("C22_state_after_write", S)
   ELSE V("", T)
 
 VClose(e) ==
   LET T == Close(S, e.wid) IN
   IF e.res # CloseRes(S, e.wid) THEN V("C22_close_result", S)
-  ELSE IF e.inprog # InProgress(T) THEN V("C28_Release_close", S)
+  ELSE IF ~InProgressReportOK(T, e.inprog) THEN V("C28_Release_close", S)
+  ELSE IF ~ObsDataOK(T, e.si, e.obs) THEN V("C22_state_after_close", S)
+  ELSE IF ~ObsOK(T, e.si, e.obs) THEN V("C25_leases_after_close", S)
   ELSE V("", T)
 
 VAbort(e) ==
   LET T == Abort(S, e.wid) IN
-  IF e.inprog # InProgress(T) THEN V("C28_Release_abort", S) ELSE V("", T)
+  IF ~ObsDataOK(T, e.si, e.obs) THEN V("C22_NoTrace_abort_left_share", S)
+  ELSE IF ~InProgressReportOK(T, e.inprog) THEN V("C28_Release_abort", S)
+  ELSE V("", T)
 
+\* uploads that ended without a close: exactly the writers the harness saw closing
+Drop(T0, wids) ==
+  [T0 EXCEPT !.imm = [si \in DOMAIN T0.imm |-> [sh \in DOMAIN T0.imm[si] |->
+                        LET b == T0.imm[si][sh] IN IF b.st = "incoming" /\ b.wid \in wids THEN AbsentB ELSE b]]]
+OpenWids(T0) == {T0.imm[p[1]][p[2]].wid : p \in Incoming(T0)}
+
+\* Time passes.  WHICH uploads time out is taken from the observation (the 30-minute rule is the
+\* code's policy, not part of C22/C28; a deviation from Advance() is only noted); what is judged is
+\* that every upload that timed out left nothing behind and released its reservation.
 VAdvance(e) ==
-  LET T == Advance(S, e.dt) IN
-  IF e.inprog # InProgress(T) THEN V("C22_NoTrace_timeout", S) ELSE V("", T)
+  LET closedW == ToSet(e.closed)
+      T == Drop([S EXCEPT !.clock = S.clock + e.dt], closedW)
+  IN IF ~(closedW \subseteq OpenWids(S)) THEN V("harness_closed_unknown_writer", S)
+     ELSE IF \E si \in DOMAIN e.obsall : ~ObsDataOK(T, si, e.obsall[si]) THEN V("C22_NoTrace_timeout_left_share", S)
+     ELSE IF ~InProgressReportOK(T, e.inprog) THEN V("C22_C28_NoTrace_timeout_reservation", S)
+     ELSE IF T # Advance(S, e.dt) /\ PrintT(<<"VF_NOTE", tid, l, "timeout_timing_differs_from_30min_rule">>) THEN V("", T)
+     ELSE V("", T)
 
+\* the connection is lost: every open upload allocated over it must be gone
 VDisconnect(e) ==
   LET T == Disconnect(S, e.conn) IN
-  IF e.inprog # InProgress(T) THEN V("C22_NoTrace_disconnect", S) ELSE V("", T)
+  IF \E si \in DOMAIN e.obsall : ~ObsDataOK(T, si, e.obsall[si]) THEN V("C22_NoTrace_disconnect_left_share", S)
+  ELSE IF ~InProgressReportOK(T, e.inprog) THEN V("C22_C28_NoTrace_disconnect_reservation", S)
+  ELSE V("", T)
 
 VGetBuckets(e) ==
   IF ToSet(e.res) # GetBucketsRes(S, e.si) THEN V("C22_Visible", S)
@@ -91,7 +113,7 @@ VRead(e) ==
   ELSE IF ~ObsOK(S, e.si, e.obs) THEN V("C25_leases_at_read", S)
   ELSE V("", S)
 
-VSetFree(e) == V("", [S EXCEPT !.free = e.free])
+VSetFree(e) == V("", [S EXCEPT !.capacity = e.capacity])
 
 VAddLease(e) ==
   LET T == AddLease(S, e.si, e.rs, e.cs) IN
@@ -160,6 +182,7 @@ Verdict(e) ==
     [] e.ev = "RTW"        -> VRTW(e)
     [] e.ev = "Readv"      -> VReadv(e)
     [] e.ev = "CraftEnabler" -> VCraft(e)
+    [] e.ev = "Crash"      -> V(e.family \o "_unexpected_exception_" \o e.exc, S)
     [] OTHER               -> V("unknown_event", S)
 
 \* C25 on every step of a real execution: no lease is lost and no expiry moves backwards, unless
